@@ -47,3 +47,107 @@ Proof.
   unfold ana. apply sumZ_ext. intros b Hb. f_equal. unfold rowz, zx. rewrite (inr_true (tH x) i) by lia. reflexivity.
 Qed.
 Print Assumptions C07_slice_afb_zero.
+
+(* ==== the tensor-level model of the library code: every transform, every J ====
+   L3 Op a b x1 x2 x3 : one shape and x3 = a x1 + b x2 at every index.  R3 rel r1 r2 r3 : all three results Ok and related, or all
+   the same error (control flow depends on shapes only).  Lists/pairs/options are related componentwise (L3l, L3pl, L3o, F3, P3, O3). *)
+From PW Require Import Model.Dtcwt Proofs.Linear Proofs.LinearDtcwt Proofs.Slice Proofs.SliceDtcwt.
+
+Theorem C07_DWT1DForward_linear :
+  forall (R:Type) (Op:Ops R) (Rth:RingOk Op) (a b:R) L h0 h1 mode (J:nat) x1 x2 x3, L3 Op a b x1 x2 x3 ->
+  R3 (L3pl Op a b) (DWT1DForward Op J x1 L h0 h1 mode) (DWT1DForward Op J x2 L h0 h1 mode) (DWT1DForward Op J x3 L h0 h1 mode).
+Proof. exact @DWT1DForward_lin. Qed.
+Print Assumptions C07_DWT1DForward_linear.
+Theorem C07_DWT1DInverse_linear :
+  forall (R:Type) (Op:Ops R) (Rth:RingOk Op) (a b:R) L g0 g1 mode hs1 hs2 hs3 x1 x2 x3, L3o Op a b hs1 hs2 hs3 -> L3 Op a b x1 x2 x3 ->
+  R3 (L3 Op a b) (DWT1DInverse Op x1 hs1 L g0 g1 mode) (DWT1DInverse Op x2 hs2 L g0 g1 mode) (DWT1DInverse Op x3 hs3 L g0 g1 mode).
+Proof. exact @DWT1DInverse_lin. Qed.
+Print Assumptions C07_DWT1DInverse_linear.
+Theorem C07_DWTForward_linear :
+  forall (R:Type) (Op:Ops R) (Rth:RingOk Op) (a b:R) Lr h0r h1r Lc h0c h1c mode (J:nat) x1 x2 x3, L3 Op a b x1 x2 x3 ->
+  R3 (L3pl Op a b) (DWTForward Op J x1 Lr h0r h1r Lc h0c h1c mode) (DWTForward Op J x2 Lr h0r h1r Lc h0c h1c mode) (DWTForward Op J x3 Lr h0r h1r Lc h0c h1c mode).
+Proof. exact @DWTForward_lin. Qed.
+Print Assumptions C07_DWTForward_linear.
+Theorem C07_DWTInverse_linear :
+  forall (R:Type) (Op:Ops R) (Rth:RingOk Op) (a b:R) Lr g0r g1r Lc g0c g1c mode hs1 hs2 hs3 x1 x2 x3, L3o Op a b hs1 hs2 hs3 -> L3 Op a b x1 x2 x3 ->
+  R3 (L3 Op a b) (DWTInverse Op x1 hs1 Lr g0r g1r Lc g0c g1c mode) (DWTInverse Op x2 hs2 Lr g0r g1r Lc g0c g1c mode) (DWTInverse Op x3 hs3 Lr g0r g1r Lc g0c g1c mode).
+Proof. exact @DWTInverse_lin. Qed.
+Print Assumptions C07_DWTInverse_linear.
+Theorem C07_SWTForward_linear :
+  forall (R:Type) (Op:Ops R) (Rth:RingOk Op) (a b:R) Lr h0r h1r Lc h0c h1c mode (J:nat) x1 x2 x3, L3 Op a b x1 x2 x3 ->
+  R3 (L3l Op a b) (SWTForward Op J x1 Lr h0r h1r Lc h0c h1c mode) (SWTForward Op J x2 Lr h0r h1r Lc h0c h1c mode) (SWTForward Op J x3 Lr h0r h1r Lc h0c h1c mode).
+Proof. exact @SWTForward_lin. Qed.
+Print Assumptions C07_SWTForward_linear.
+Theorem C07_DTCWTForward_linear :
+  forall (R:Type) (Op:Ops R) (Rth:RingOk Op) (a b s:R) Lo0 h0o Lo1 h1o L0 h0a h0b L1 h1a h1b mode skips x1 x2 x3, L3 Op a b x1 x2 x3 ->
+  R3 (F3 (P3 (L3 Op a b) (F3 (L3 Op a b))))
+     (DTCWTForward Op s skips x1 Lo0 h0o Lo1 h1o L0 h0a h0b L1 h1a h1b mode) (DTCWTForward Op s skips x2 Lo0 h0o Lo1 h1o L0 h0a h0b L1 h1a h1b mode)
+     (DTCWTForward Op s skips x3 Lo0 h0o Lo1 h1o L0 h0a h0b L1 h1a h1b mode).
+Proof. exact @DTCWTForward_lin. Qed.
+Print Assumptions C07_DTCWTForward_linear.
+Theorem C07_DTCWTInverse_linear :
+  forall (R:Type) (Op:Ops R) (Rth:RingOk Op) (a b s:R) Lo0 g0o Lo1 g1o L0 g0a g0b L1 g1a g1b mode ll1 ll2 ll3 hs1 hs2 hs3,
+  O3 (L3 Op a b) ll1 ll2 ll3 -> F3 (F3 (L3 Op a b)) hs1 hs2 hs3 ->
+  R3 (L3 Op a b) (DTCWTInverse Op s ll1 hs1 Lo0 g0o Lo1 g1o L0 g0a g0b L1 g1a g1b mode) (DTCWTInverse Op s ll2 hs2 Lo0 g0o Lo1 g1o L0 g0a g0b L1 g1a g1b mode)
+                 (DTCWTInverse Op s ll3 hs3 Lo0 g0o Lo1 g1o L0 g0a g0b L1 g1a g1b mode).
+Proof. exact @DTCWTInverse_lin. Qed.
+Print Assumptions C07_DTCWTInverse_linear.
+(* the relation is inhabited by the linear combination itself, and with a = b = 0 it says "zero in, zero out" *)
+Theorem C07_lincomb_related :
+  forall (R:Type) (Op:Ops R) (a b:R) (x1 x2:@ten R), shp x1 x2 -> L3 Op a b x1 x2 (lincomb Op a b x1 x2).
+Proof. exact @L3_lincomb. Qed.
+Print Assumptions C07_lincomb_related.
+Theorem C07_zero_in :
+  forall (R:Type) (Op:Ops R) (Rth:RingOk Op) (x z:@ten R), shp x z -> (forall n c i j, tf z n c i j = r0 Op) -> L3 Op (r0 Op) (r0 Op) x x z.
+Proof. exact @L3_zero_intro. Qed.
+Print Assumptions C07_zero_in.
+Theorem C07_zero_out :
+  forall (R:Type) (Op:Ops R) (Rth:RingOk Op) (x1 x2 x3:@ten R), L3 Op (r0 Op) (r0 Op) x1 x2 x3 -> forall n c i j, tf x3 n c i j = r0 Op.
+Proof. exact @L3_zero_elim. Qed.
+Print Assumptions C07_zero_out.
+
+(* slice independence.  Sl N0 C n c m x xs : x is a batch of N0 items with m*C channels, xs ONE item with m channels, and
+   xs[0, t] = x[n, m*c + t] for t < m (m = sub-bands per input channel).  slice1 n c x is the 1 x 1 x H x W tensor x[n, c]:
+   the right-hand sides below are the transform of that single slice - an operator that cannot mention n, c, N0 or C. *)
+Theorem C07_slice_is_related :
+  forall (R:Type) (N0 C n c:Z) (x:@ten R), tN x = N0 -> tC x = C -> Sl N0 C n c 1 x (slice1 n c x).
+Proof. exact @Sl_slice1. Qed.
+Print Assumptions C07_slice_is_related.
+Theorem C07_DWT1DForward_slice :
+  forall (R:Type) (Op:Ops R) (N0 C n c:Z), 0 <= c < C -> forall L h0 h1 mode m (J:nat) x xs, Sl N0 C n c m x xs ->
+  R2 (P2 (Sl N0 C n c m) (F2 (Sl N0 C n c m))) (DWT1DForward Op J x L h0 h1 mode) (DWT1DForward Op J xs L h0 h1 mode).
+Proof. exact @DWT1DForward_sl. Qed.
+Print Assumptions C07_DWT1DForward_slice.
+Theorem C07_DWT1DInverse_slice :
+  forall (R:Type) (Op:Ops R) (N0 C n c:Z) L g0 g1 mode m hs hss x xs, F2 (O2 (Sl N0 C n c m)) hs hss -> Sl N0 C n c m x xs ->
+  R2 (Sl N0 C n c m) (DWT1DInverse Op x hs L g0 g1 mode) (DWT1DInverse Op xs hss L g0 g1 mode).
+Proof. exact @DWT1DInverse_sl. Qed.
+Print Assumptions C07_DWT1DInverse_slice.
+Theorem C07_DWTForward_slice :
+  forall (R:Type) (Op:Ops R) (N0 C n c:Z), 0 <= c < C -> forall Lr h0r h1r Lc h0c h1c mode m (J:nat) x xs, Sl N0 C n c m x xs ->
+  R2 (P2 (Sl N0 C n c m) (F2 (Sl N0 C n c (3*m)))) (DWTForward Op J x Lr h0r h1r Lc h0c h1c mode) (DWTForward Op J xs Lr h0r h1r Lc h0c h1c mode).
+Proof. exact @DWTForward_sl. Qed.
+Print Assumptions C07_DWTForward_slice.
+Theorem C07_DWTInverse_slice :
+  forall (R:Type) (Op:Ops R) (N0 C n c:Z) Lr g0r g1r Lc g0c g1c mode m hs hss x xs, F2 (O2 (Sl N0 C n c (3*m))) hs hss -> Sl N0 C n c m x xs ->
+  R2 (Sl N0 C n c m) (DWTInverse Op x hs Lr g0r g1r Lc g0c g1c mode) (DWTInverse Op xs hss Lr g0r g1r Lc g0c g1c mode).
+Proof. exact @DWTInverse_sl. Qed.
+Print Assumptions C07_DWTInverse_slice.
+Theorem C07_SWTForward_slice :
+  forall (R:Type) (Op:Ops R) (N0 C n c:Z), 0 <= c < C -> forall Lr h0r h1r Lc h0c h1c mode m (J:nat) x xs, Sl N0 C n c m x xs ->
+  R2 (F2 (Sl N0 C n c (4*m))) (SWTForward Op J x Lr h0r h1r Lc h0c h1c mode) (SWTForward Op J xs Lr h0r h1r Lc h0c h1c mode).
+Proof. exact @SWTForward_sl. Qed.
+Print Assumptions C07_SWTForward_slice.
+Theorem C07_DTCWTForward_slice :
+  forall (R:Type) (Op:Ops R) (N0 C n c:Z) (s:R), 0 <= c < C -> forall Lo0 h0o Lo1 h1o L0 h0a h0b L1 h1a h1b mode m skips x xs, Sl N0 C n c m x xs ->
+  R2 (F2 (P2 (Sl N0 C n c m) (F2 (Sl N0 C n c m))))
+     (DTCWTForward Op s skips x Lo0 h0o Lo1 h1o L0 h0a h0b L1 h1a h1b mode) (DTCWTForward Op s skips xs Lo0 h0o Lo1 h1o L0 h0a h0b L1 h1a h1b mode).
+Proof. exact @DTCWTForward_sl. Qed.
+Print Assumptions C07_DTCWTForward_slice.
+(* inverse: every band-pass level is absent (nil) or holds its 12 planes (6 orientations x re/im) *)
+Theorem C07_DTCWTInverse_slice :
+  forall (R:Type) (Op:Ops R) (N0 C n c:Z) (s:R), 0 <= c < C -> forall Lo0 g0o Lo1 g1o L0 g0a g0b L1 g1a g1b mode m ll lls hs hss,
+  O2 (Sl N0 C n c m) ll lls -> F2 (fun h hs' => F2 (Sl N0 C n c m) h hs' /\ planes_ok h) hs hss ->
+  R2 (Sl N0 C n c m) (DTCWTInverse Op s ll hs Lo0 g0o Lo1 g1o L0 g0a g0b L1 g1a g1b mode) (DTCWTInverse Op s lls hss Lo0 g0o Lo1 g1o L0 g0a g0b L1 g1a g1b mode).
+Proof. exact @DTCWTInverse_sl. Qed.
+Print Assumptions C07_DTCWTInverse_slice.
